@@ -56,6 +56,9 @@ pub proof fn lemma_quote_lit() ensures "\""@ == seq!['"'], "\""@.len() == 1 { re
 pub open spec fn has_op(s: Seq<char>) -> bool { s.contains('|') || s.contains('&') || s.contains('<') || s.contains('>') }
 //@FN has_operator_char
 
+pub uninterp spec fn spec_is_assign(t: Seq<char>) -> bool;
+#[verifier::external_body]
+pub fn is_assignment_word(text: &str) -> (r: bool) ensures r == spec_is_assign(text@) { unimplemented!() }
 pub uninterp spec fn spec_should_dollar(t: Seq<char>) -> bool;
 #[verifier::external_body]
 pub fn should_do_dollar_command_extension(line: &str) -> (r: bool) ensures r == spec_should_dollar(line@) { unimplemented!() }
@@ -97,7 +100,8 @@ impl VxRegex {
 pub fn vx_clone_cap(c: &VxCap) -> (r: VxCap) ensures r.g1@ == c.g1@, r.g2@ == c.g2@, r.g3@ == c.g3@ { unimplemented!() }
 
 // ghost: how many inner commands were planned and run
-// op_words: the unquoted words into which an inner command's output brought an operator character (C13)
+// op_words: the unquoted words (other than NAME=value assignment words, which are taken off the line before operators are looked for)
+// into which an inner command's output brought an operator character (C13)
 pub ghost struct SubLog { pub planned: int, pub ran: int, pub op_words: Set<int> }
 impl CommandLine {
     #[verifier::external_body]
@@ -187,7 +191,7 @@ dollar = Fn(S, 'do_command_substitution_for_dollar', props=('C11',),
            'LABEL:C11.dollar.step_inserts_the_output_literally_between_head_and_tail: '
            'assert(result@ == spec_sub_head(line_@) + spec_trim(cmd_result.stdout@) + spec_sub_tail(line_@));',
            # ghost record, taken from the data flow (not from the code's own flag): this word received an operator character from an output
-           'after-call:vx_trim': 'if has_op(spec_trim(cmd_result.stdout@)) && sep@.len() == 0 { note_op_word(lg, idx as int); }',
+           'after-call:vx_trim': 'if has_op(spec_trim(cmd_result.stdout@)) && sep@.len() == 0 && !spec_is_assign(token@) { note_op_word(lg, idx as int); }',
            'before-text:data_words.push(idx);': 'lemma_in_words_push(data_words@, idx);',
            'loop-3-body-entry': 'lemma_quote_lit();',
            'loop-3-exit': EXIT_HINT},
@@ -205,7 +209,7 @@ dollar = Fn(S, 'do_command_substitution_for_dollar', props=('C11',),
         ]),
         1: Loop(invariant=[
             ('C11.inv.dollar.once', 'lg.ran - old(lg).ran <= lg.planned - old(lg).planned'),
-            ('C13.inv.dollar.ops_inner', 'forall|k: int| lg.op_words.contains(k) ==> old(lg).op_words.contains(k) || in_words(data_words@, k) || (k == idx as int && got_operator && sep@.len() == 0)'),
+            ('C13.inv.dollar.ops_inner', 'forall|k: int| lg.op_words.contains(k) ==> old(lg).op_words.contains(k) || in_words(data_words@, k) || (k == idx as int && got_operator && sep@.len() == 0 && !spec_is_assign(token@))'),
         ], decreases='spec_subst_count(line@)'),
         2: Loop(invariant=[
             ('C11+C13.inv.dollar.frame', 'tokens@.len() == old(tokens)@.len() && forall|k: int| 0 <= k < tokens@.len() ==> (#[trigger] tokens@[k]).0@ == old(tokens)@[k].0@ '
@@ -237,7 +241,7 @@ dot = Fn(S, 'do_command_substitution_for_dot', props=('C11',),
     add_params='Tracked(lg): Tracked<&mut SubLog>',
     ghost_args={'from_line': 'Tracked(lg)', 'run_pipeline': 'Tracked(lg)'},
     loop_kinds={2: 'value', (2, 'clone'): 'vx_clone_cap(&{})'},
-    hints={'after-call:vx_trim': 'if has_op(spec_trim(cr.stdout@)) && sep@.len() == 0 { note_op_word(lg, idx as int); }',
+    hints={'after-call:vx_trim': 'if has_op(spec_trim(cr.stdout@)) && sep@.len() == 0 && !spec_is_assign(token@) { note_op_word(lg, idx as int); }',
            'before-text:data_words.push(idx);': 'lemma_in_words_push(data_words@, idx);',
            'loop-0-body-entry': 'reveal_strlit("`"); assert("`"@.len() == 1);',
            'loop-4-body-entry': 'lemma_quote_lit();',
